@@ -2,7 +2,7 @@
 (* Exhaustive configurations of Linepart: every sequence over the alphabet   *)
 (* up to MaxLen, every range of Ranges; obs is an observation, not state.    *)
 EXTENDS Linepart
-View == <<data, lo, hi, ranged, pos, parts>>
+View == <<data, data2, lo, hi, ranged, pos, parts>>
 Rng1 == {<<0, 4>>}
 Rng3 == {<<0, 4>>, <<2, 2>>, <<4, 0>>}
 Alpha5 == {-2, 0, 2, 4, 6}
